@@ -728,6 +728,16 @@ def decl_program():
             ],
         ),
         fn(
+            "u3",
+            ["p"],
+            [
+                # G1 exists when the module is loaded; the scenario may delete / redefine it between calls
+                ["bind", "y", V],
+                ["if", [["bind", "z", ["add", var("y"), var("G1")]], use("z")], [["bind", "z", var("y")]]],
+                ["ret", var("z")],
+            ],
+        ),
+        fn(
             "u2",
             ["p"],
             [
